@@ -229,4 +229,28 @@ def acctInOf (C : BCrypto) (ρ : PubVal) (coin : Nat) (w e : String) (p : Pass) 
     cPubEnc := C.box (bytesOf C (ρ (w, .cpub)) mkPub) kPubB, cPrivEnc := C.box (bytesOf C (ρ (w, .cpriv)) mkPriv) kPrivB,
     cEntEnc := C.box (bytesOf C (ρ (w, .cent)) mkPriv) kEntB }
 
+-- ------------------------------------------------------------------ the symbolic writes of the other operations as byte inputs
+
+/-- the key the branch public key is sealed under, read off the stored box (newAddr re-uses it) -/
+def exbKey (t : Term) : Term :=
+  match t with
+  | .enc k _ => k
+  | _ => .pub "missing"
+
+/-- the symbolic writes of ChangePubPassphrase for one keystore (one step of the fold `chpubWrites`) -/
+def chpubEntries (w : String) (salt : Nat) (new : Pass) (ck : Term) : List (Key × Term) :=
+  [ ((w, .mpub), paramsT salt new), ((w, .cpub), .enc (masterKey salt new) ck) ]
+
+/-- the steps of the symbolic ChangePubPassphrase: keystore, fresh salt, the public crypto key read with the old passphrase -/
+def chpubSteps (st : St) (old : Pass) : List (String × Nat × Term) :=
+  ((List.range st.wal.length).zip st.wal).map (fun ie =>
+    (ie.2.1, st.nonce + ie.1,
+      match deriveKey (dbGet st.db ie.2.1 .mpub) old with
+      | some mkOld => (dec mkOld (dbGet st.db ie.2.1 .cpub)).getD (.pub "missing")
+      | none => .pub "missing"))
+
+/-- the byte inputs of one ChangePubPassphrase step -/
+def chpubStepB (C : BCrypto) (ρ : PubVal) (new : Pass) (s : String × Nat × Term) : Bytes × Bytes × Bytes :=
+  (C.walletId s.1, valBytes C ρ (s.1, .mpub) (paramsT s.2.1 new), valBytes C ρ (s.1, .cpub) (.enc (masterKey s.2.1 new) s.2.2))
+
 end MW.Model.KsBytes
